@@ -19,12 +19,34 @@ Full statement of the property on the model (`FullC11` below) and what is proved
                 SBOMs, nothing else claims the image/layer names or ids), index_describes_index
   model         generate_never_fuel (the fuel of the closure loop always suffices)
 
+  oracle        oracle_iff_describes: the executable oracle the driver evaluates on every Go document passes
+                exactly when the document satisfies the specification `Describes` (all seven clauses as Props);
+                oracle_passes_partial / describes_partial: on every `Benign` input (one decidable predicate:
+                well-formed header, ¬F11a, ¬F11c, ¬F11d as the driver computes them) the model's document
+                satisfies the specification and the driver's verdict is `pass`, for every iteration order;
+                invalid_is_listed: a failing verdict on the model's output implies F11a ∨ F11c ∨ F11d;
+                driver_invalid_listed: with embedded SBOMs of arbitrary shape, the class the driver reports
+                for the model's output is `-`, F11a, F11c or F11d, never `unlisted` (hypotheses `headerOk`,
+                `unclaimed`; both shown necessary by witnesses) — so `unlisted` means Go ≠ model;
+                stray_never, ids_clauses_never: three of the oracle's clauses hold for ALL inputs
+  F11c inputs   describes_but_apks_partial (six of the seven clauses), apk_named_element_partial (every installed
+                apk keeps an element named after it when an identifier never comes with two names)
+  exact list    one_element_per_apk_partial_embedded (embedded SBOMs without a target element allowed),
+                one_element_per_distinct_apk_partial (under exactly ¬F11a ∧ ¬F11c: header ++ one per distinct entry)
+  index         index_oracle_cases / index_oracle_passes_partial: the index oracle on the model's index document
+  order         order_independent_partial: with ≤ 1 target element per embedded SBOM the result (document or
+                error) is the same for all map iteration orders; order_dependent_multi_target (F11d) negation
+
 `ord` is Go's map iteration order in ProcessInternalApkSBOM; theorems hold for every `ord` that only
-yields target ids (`OrdOk`).
+yields target ids (`OrdOk`); every rearrangement (`OrdPerm`) is such an order.
 -/
 import Apko.Proofs.Lemmas.SbomGen
 import Apko.Proofs.Lemmas.SbomFuel
 import Apko.Proofs.Lemmas.SbomImage
+import Apko.Proofs.Lemmas.SbomVerdict
+import Apko.Proofs.Lemmas.SbomDriver
+import Apko.Proofs.Lemmas.SbomDedup
+import Apko.Proofs.Lemmas.SbomNamed
 
 namespace Apko.C11
 open Apko Apko.Sbom
@@ -523,5 +545,461 @@ theorem index_describes_index {o : IndexOpts} {d : Doc} (h : generateIndex o = .
       intro im him
       exact ⟨by simp only [addSourcePackage, List.mem_append, List.mem_cons, List.mem_map]; exact Or.inl (Or.inr ⟨im, him, rfl⟩),
              by simp only [addSourcePackage, List.mem_append, List.mem_map]; exact Or.inl ⟨im, him, rfl⟩⟩
+
+/-! ## the oracle the driver evaluates, and its verdict on the model's own output
+
+`Driver/Sbom.lean` answers every `s.gen` request with `verdict (oracle o fs d)` for Go's document `d` and
+the class `classOf o fs (oracle o fs d)`.  The theorems below are about the same two functions applied to
+the model's document. -/
+
+/-- the executable oracle passes exactly when the document satisfies the specification: valid and unique
+identifiers, resolving references, image / layers / installed apks described, no stray element -/
+theorem oracle_iff_describes (o : Opts) (fs : SbomDir) (d : Doc) : oracle o fs d = none ↔ Describes o fs d :=
+  oracle_none_iff o fs d
+
+/-- `Benign`: ONE decidable predicate over the input —
+  * `headerOk`: header elements (image, layers, source) with the same identifier are the same element
+    (`HdrInj`; a layer listed twice is fine, two digests sanitising to one identifier are not) and the source
+    element (url, commit) does not read like an entry of the installed database;
+  * ¬F11a `idCollision`, ¬F11c `embeddedTarget`, ¬F11d `multiTarget`, exactly as the driver computes them.
+Embedded SBOMs that do not describe an element named like their apk, unparsable files and licensing infos
+are all allowed. -/
+def Benign (o : Opts) (fs : SbomDir) : Prop := benign o fs = true
+
+instance (o : Opts) (fs : SbomDir) : Decidable (Benign o fs) := inferInstanceAs (Decidable (_ = true))
+
+theorem benign_unfold {o : Opts} {fs : SbomDir} : Benign o fs ↔
+    (HdrInj o ∧ ∀ a ∈ o.apks, ∀ p ∈ srcPkgs o, matchesApk a p = false) ∧
+    idCollision o = false ∧ embeddedTarget o fs = false ∧ multiTarget o fs = false := by
+  unfold Benign
+  rw [benign_iff, headerOk_iff]
+
+/-- **describes_partial** — on a benign input every document the model emits satisfies the whole
+specification, for every map iteration order -/
+theorem describes_partial {o : Opts} {fs : SbomDir} {ord : List Id → List Id} {d : Doc}
+    (hord : OrdOk ord) (hb : Benign o fs) (h : generate o fs ord = .ok d) : Describes o fs d :=
+  describes_of_benign hord hb h
+
+/-- **oracle_passes_partial** — … and so the verdict the driver computes on it is `pass` -/
+theorem oracle_passes_partial {o : Opts} {fs : SbomDir} {ord : List Id → List Id} {d : Doc}
+    (hord : OrdOk ord) (hb : Benign o fs) (h : generate o fs ord = .ok d) :
+    Driver.Sbom.verdict (oracle o fs d) = "pass" := by
+  rw [oracle_pass_of_benign hord hb h]; rfl
+
+/-- what the `s.gen` handler feeds to `verdict` / `classOf` when the answer it is given is the model's own:
+the oracle on an emitted document, nothing when an error is reported -/
+def modelWhy (o : Opts) (fs : SbomDir) (ord : List Id → List Id) : Option String :=
+  match generate o fs ord with
+  | .ok d => oracle o fs d
+  | .error _ => none
+
+theorem model_passes_partial {o : Opts} {fs : SbomDir} {ord : List Id → List Id}
+    (hord : OrdOk ord) (hb : Benign o fs) : Driver.Sbom.verdict (modelWhy o fs ord) = "pass" := by
+  unfold modelWhy
+  split
+  · next d h => exact oracle_passes_partial hord hb h
+  · rfl
+
+/-- every rearrangement of the key set is an admissible order, so the theorems hold for all Go map orders -/
+theorem ordOk_of_perm {ord : List Id → List Id} (h : OrdPerm ord) : OrdOk ord := h.ordOk
+
+/-- the hypothesis is satisfiable by a non-trivial input: characters outside the identifier alphabet, a source
+element, an embedded SBOM (with a relationship and a licensing info) that describes something not named like
+its apk, an unparsable file — seven elements, licensing info merged -/
+def benignFS : SbomDir :=
+  [("foo-1".toList, .doc ⟨["SPDXRef-Package-libz".toList],
+      [⟨"SPDXRef-Package-libz".toList, "libz".toList, "3".toList, []⟩,
+       ⟨"SPDXRef-Package-foo".toList, "foo".toList, "1".toList, []⟩],
+      [⟨"SPDXRef-Package-libz".toList, "CONTAINS".toList, "SPDXRef-Package-foo".toList⟩],
+      [("LicenseRef-x".toList, "text".toList)]⟩),
+   ("b c".toList, .junk)]
+
+def benignOpts : Opts := ⟨"sha256:ab".toList, ["sha256:cd".toList, "sha256:ef".toList], "https://x/y@12".toList, "1".toList,
+  [⟨"foo".toList, "1".toList, "22".toList⟩, ⟨"a+".toList, "1:2".toList, "33".toList⟩, ⟨"b c".toList, "2".toList, "44".toList⟩]⟩
+
+example : Benign benignOpts benignFS ∧
+    okAnd (generate benignOpts benignFS id) (fun d => d.packages.length == 7 && d.lics.length == 1) = true :=
+  ⟨by decide, by decide⟩
+
+/-- … also by one without image digest, with the same layer listed twice, the zero-hash layer and a database
+entry listed twice (`DistinctIds` and `(header o).ids.Nodup` both fail here) -/
+example : Benign ⟨[], ["sha256:cd".toList, [], "sha256:cd".toList], [], "1".toList,
+      [⟨"foo".toList, "1".toList, "22".toList⟩, ⟨"foo".toList, "1".toList, "22".toList⟩]⟩ benignFS := by decide
+
+/-- **invalid_is_listed** — contrapositive: if the oracle fails on a document the model emits for an input
+with a well-formed header, then one of the three class predicates holds, as the driver computes them -/
+theorem invalid_is_listed {o : Opts} {fs : SbomDir} {ord : List Id → List Id} {d : Doc}
+    (hord : OrdOk ord) (hh : headerOk o = true) (h : generate o fs ord = .ok d)
+    (hfail : oracle o fs d ≠ none) :
+    idCollision o = true ∨ embeddedTarget o fs = true ∨ multiTarget o fs = true := by
+  cases h1 : idCollision o
+  · cases h2 : embeddedTarget o fs
+    · cases h3 : multiTarget o fs
+      · exact absurd (oracle_pass_of_benign hord (benign_iff.mpr ⟨hh, h1, h2, h3⟩) h) hfail
+      · exact Or.inr (Or.inr rfl)
+    · exact Or.inr (Or.inl rfl)
+  · exact Or.inl rfl
+
+/-- three clauses of the oracle can never fail on a document the model emits, whatever the input -/
+theorem ids_clauses_never {o : Opts} {fs : SbomDir} {ord : List Id → List Id} {d : Doc}
+    (h : generate o fs ord = .ok d) : idsValid fs d = true ∧ idsUnique d = true :=
+  ⟨(idsValid_iff fs d).mpr (generate_common h).1, (idsUnique_iff d).mpr (generate_common h).2.1⟩
+
+theorem stray_never {o : Opts} {fs : SbomDir} {ord : List Id → List Id} {d : Doc}
+    (h : generate o fs ord = .ok d) : strayElements o fs d = [] :=
+  List.isEmpty_iff.mp ((noStray_iff o fs d).mpr (generate_common h).2.2)
+
+/-- **driver_invalid_listed** — with embedded SBOMs of arbitrary shape and every iteration order: when nothing
+else in the input claims the names or identifiers of image and layers (`unclaimed`), the oracle on the model's
+document can only fail in the clauses `dangling-reference` and `apk-element`, and the class the driver attaches
+is F11d for the former and F11a / F11c for the latter.  The class is never `unlisted`: an `unlisted` verdict of
+the suite on such an input means that the Go code and the model disagree. -/
+theorem driver_invalid_listed {o : Opts} {fs : SbomDir} {ord : List Id → List Id} {d : Doc}
+    (hord : OrdOk ord) (hh : headerOk o = true) (hu : unclaimed o fs = true)
+    (h : generate o fs ord = .ok d) :
+    Driver.Sbom.classOf o fs (oracle o fs d) ≠ "unlisted" := by
+  have := classOf_model_listed hord hh hu h
+  simp only [List.mem_cons, List.not_mem_nil, or_false] at this
+  rcases this with e | e | e | e <;> rw [e] <;> decide
+
+/-- the precise form: which clause, which class -/
+theorem driver_verdict_cases {o : Opts} {fs : SbomDir} {ord : List Id → List Id} {d : Doc}
+    (hord : OrdOk ord) (hh : headerOk o = true) (hu : unclaimed o fs = true)
+    (h : generate o fs ord = .ok d) :
+    (oracle o fs d = none) ∨
+    (oracle o fs d = some "dangling-reference" ∧ multiTarget o fs = true) ∨
+    (oracle o fs d = some "apk-element" ∧ (idCollision o = true ∨ embeddedTarget o fs = true)) := by
+  rw [oracle_model_cases hh hu h]
+  split
+  · next hr =>
+    refine Or.inr (Or.inl ⟨rfl, ?_⟩)
+    cases hm : multiTarget o fs
+    · have := (refsResolve_iff d).mpr (generate_closed hord hm h)
+      rw [hr] at this; cases this
+    · rfl
+  · split
+    · next ha =>
+      refine Or.inr (Or.inr ⟨rfl, ?_⟩)
+      cases hc : idCollision o
+      · cases he : embeddedTarget o fs
+        · have := (apksOk_iff o fs d).mpr (generate_benign hord hh hc he h).2.2
+          rw [ha] at this; cases this
+        · exact Or.inr rfl
+      · exact Or.inl rfl
+    · exact Or.inl rfl
+
+/-- the hypotheses of `driver_invalid_listed` hold of the example with a replaced element and of all three
+finding witnesses, and on these the driver's class is the listed one -/
+def classOn (o : Opts) (fs : SbomDir) (ord : List Id → List Id) : String :=
+  match generate o fs ord with
+  | .ok d => Driver.Sbom.classOf o fs (oracle o fs d)
+  | .error _ => "error"
+
+example : headerOk exOpts = true ∧ unclaimed exOpts exFS = true ∧ classOn exOpts exFS id = "F11c" := by decide
+
+theorem classes_realised :
+    (headerOk f11aOpts = true ∧ unclaimed f11aOpts [] = true ∧ classOn f11aOpts [] id = "F11a") ∧
+    (headerOk f11cOpts = true ∧ unclaimed f11cOpts f11cFS = true ∧ classOn f11cOpts f11cFS id = "F11c") ∧
+    (headerOk f11dOpts = true ∧ unclaimed f11dOpts f11dFS = true ∧ classOn f11dOpts f11dFS id = "F11d" ∧
+      classOn f11dOpts f11dFS List.reverse = "F11c") := by
+  decide
+
+/-- `headerOk` cannot be dropped: two layer digests that sanitise to the same identifier lose a layer element
+in the de-dup pass; a source element `url@commit` that reads like the database entry of an installed apk is a
+second "apk element".  Neither is a finding class (layer digests are `sha256:<hex>`, apk names contain no `/`),
+and the driver says `unlisted`. -/
+def badLayersOpts : Opts := ⟨"sha256:ab".toList, ["a+".toList, "aC43".toList], [], "1".toList, []⟩
+
+def badSourceOpts : Opts := ⟨"sha256:ab".toList, ["sha256:cd".toList], "https://foo@abc".toList, "1".toList,
+  [⟨"foo".toList, "abc".toList, "abc".toList⟩]⟩
+
+theorem headerOk_needed :
+    (headerOk badLayersOpts = false ∧ unclaimed badLayersOpts [] = true ∧ classOn badLayersOpts [] id = "unlisted") ∧
+    (headerOk badSourceOpts = false ∧ unclaimed badSourceOpts [] = true ∧ classOn badSourceOpts [] id = "unlisted") := by
+  decide
+
+/-- `unclaimed` cannot be dropped: an apk named like the image digest whose embedded SBOM describes an element
+of that name makes the replace round remove the *image* element; the clause `image-digest` fails, for which
+no class exists -/
+def claimFS : SbomDir :=
+  [("sha256:ab-1".toList, .doc ⟨["SPDXRef-Package-x".toList],
+      [⟨"SPDXRef-Package-x".toList, "sha256:ab".toList, "1".toList, []⟩], [], []⟩)]
+
+def claimOpts : Opts := ⟨"sha256:ab".toList, ["sha256:cd".toList], [], "1".toList,
+  [⟨"sha256:ab".toList, "1".toList, "22".toList⟩]⟩
+
+theorem unclaimed_needed :
+    headerOk claimOpts = true ∧ unclaimed claimOpts claimFS = false ∧ classOn claimOpts claimFS id = "unlisted" ∧
+    okAnd (generate claimOpts claimFS id) (fun d => oracle claimOpts claimFS d == some "image-digest") = true := by
+  decide
+
+/-! ## independence of the map iteration order (the audited site of C01) -/
+
+/-- **order_independent_partial** — `for id := range targetElementIDs` in ProcessInternalApkSBOM is the only
+place where `Generate` depends on Go's map iteration order.  When no embedded SBOM has two or more target
+elements (¬F11d), any two iteration orders (functions returning a rearrangement of the key set they are given)
+produce the same result — the same document or the same error. -/
+theorem order_independent_partial {o : Opts} {fs : SbomDir} {ord₁ ord₂ : List Id → List Id}
+    (h₁ : OrdPerm ord₁) (h₂ : OrdPerm ord₂) (hone : multiTarget o fs = false) :
+    generate o fs ord₁ = generate o fs ord₂ := by
+  rw [generate_ord h₁ (multiTarget_false.mp hone), generate_ord h₂ (multiTarget_false.mp hone)]
+
+/-- the full statement is false (F11d): with two target elements the identity and the reversed order give
+different documents -/
+theorem order_dependent_multi_target :
+    OrdPerm id ∧ OrdPerm List.reverse ∧ generate f11dOpts f11dFS id ≠ generate f11dOpts f11dFS List.reverse := by
+  refine ⟨ordPerm_id, ordPerm_reverse, ?_⟩
+  intro e
+  obtain ⟨h1, h2, _⟩ := refs_dangle_multi_target
+  rw [e] at h1
+  cases hg : generate f11dOpts f11dFS List.reverse with
+  | error x => rw [hg] at h2; simp [okAnd] at h2
+  | ok d =>
+    rw [hg] at h1 h2
+    simp only [okAnd, Bool.not_eq_true'] at h1 h2
+    rw [h1] at h2; cases h2
+
+/-- satisfiable with an embedded SBOM that *has* a target element (`exFS`) -/
+example : multiTarget exOpts exFS = false ∧ embeddedTarget exOpts exFS = true := by decide
+
+/-! ## one element per apk, with embedded SBOMs that cannot collide -/
+
+/-- no installed apk ships an SBOM that describes an element named like the apk.  Files that are absent,
+unparsable, or SBOMs describing other things are all allowed (`NoEmbedded` demanded that nothing is found). -/
+def NoTarget (fs : SbomDir) (o : Opts) : Prop := ∀ a ∈ o.apks, targetCount fs a = 0
+
+theorem noTarget_of_noEmbedded {fs : SbomDir} {o : Opts} (h : NoEmbedded fs o) : NoTarget fs o := by
+  intro a ha
+  unfold targetCount
+  rw [h a ha]
+
+theorem noTarget_iff {fs : SbomDir} {o : Opts} : NoTarget fs o ↔ embeddedTarget o fs = false :=
+  embeddedTarget_false.symm
+
+/-- **one_element_per_apk_partial**, strengthened — embedded SBOMs without a target element import nothing:
+the package list is exactly the header elements followed by one element per installed apk with the database's
+name, version and checksum; relationships and described ids are the header's -/
+theorem one_element_per_apk_partial_embedded {o : Opts} {fs : SbomDir} {ord : List Id → List Id} {d : Doc}
+    (hord : OrdOk ord) (hn : NoTarget fs o) (hd : DistinctIds o) (h : generate o fs ord = .ok d) :
+    d.packages = (header o).packages ++
+      o.apks.map (fun a => ⟨apkId (nonceOf o.imageDigest) a, a.name, a.version, [("SHA1".toList, a.checksum)]⟩) ∧
+    d.rels = (header o).rels ∧ d.describes = (header o).describes := by
+  obtain ⟨hp, hr, hds⟩ := generate_noTarget hord hn h
+  refine ⟨?_, hr, hds⟩
+  rw [hp, dedup_of_nodup]
+  · rfl
+  · simpa [DistinctIds, Doc.ids, apkPackage, Function.comp_def] using hd
+
+theorem apk_elements_match_embedded {o : Opts} {fs : SbomDir} {ord : List Id → List Id} {d : Doc}
+    (hord : OrdOk ord) (hn : NoTarget fs o) (hd : DistinctIds o) (h : generate o fs ord = .ok d) :
+    (d.packages.drop (header o).packages.length).map (fun p => (p.name, p.version, p.checksums)) =
+      o.apks.map (fun a => (a.name, a.version, [("SHA1".toList, a.checksum)])) := by
+  rw [(one_element_per_apk_partial_embedded hord hn hd h).1, List.drop_left]
+  simp [Function.comp_def]
+
+/-- the old hypothesis `DistinctIds` splits into: distinct header identifiers, ¬F11a, and no database entry
+listed twice -/
+theorem distinctIds_split {o : Opts} (hd : DistinctIds o) :
+    (header o).ids.Nodup ∧ idCollision o = false ∧ o.apks.Nodup := by
+  unfold DistinctIds at hd
+  rw [List.nodup_append] at hd
+  refine ⟨hd.1, idCollision_false.mpr ⟨?_, inj_of_nodup_map hd.2.1⟩, nodup_of_nodup_map _ hd.2.1⟩
+  intro a ha hm
+  exact hd.2.2 _ hm _ (List.mem_map_of_mem (f := apkId (nonceOf o.imageDigest)) ha) rfl
+
+/-- **one_element_per_apk**, under exactly the complement of F11a and F11c as the driver computes them (and
+distinct header identifiers): the element list is the header followed by one element per *distinct* entry of
+the installed database (an entry listed twice gets one element), each with the database's name, version and
+checksum -/
+theorem one_element_per_distinct_apk_partial {o : Opts} {fs : SbomDir} {ord : List Id → List Id} {d : Doc}
+    (hord : OrdOk ord) (hh : (header o).ids.Nodup) (hcol : idCollision o = false)
+    (hn : embeddedTarget o fs = false) (h : generate o fs ord = .ok d) :
+    d.packages = (header o).packages ++
+      o.apks.eraseDups.map (fun a => ⟨apkId (nonceOf o.imageDigest) a, a.name, a.version, [("SHA1".toList, a.checksum)]⟩) ∧
+    d.rels = (header o).rels ∧ d.describes = (header o).describes := by
+  obtain ⟨hp, hr, hds⟩ := generate_noTarget hord (embeddedTarget_false.mp hn) h
+  refine ⟨?_, hr, hds⟩
+  rw [hp, dedup_header_apks hh hcol]
+  rfl
+
+/-- a database that lists an entry twice: `DistinctIds` fails, ¬F11a holds, one element is emitted -/
+example : ¬ DistinctIds ⟨"sha256:ab".toList, ["sha256:cd".toList], [], "1".toList,
+      [⟨"foo".toList, "1".toList, "22".toList⟩, ⟨"foo".toList, "1".toList, "22".toList⟩]⟩ ∧
+    idCollision ⟨"sha256:ab".toList, ["sha256:cd".toList], [], "1".toList,
+      [⟨"foo".toList, "1".toList, "22".toList⟩, ⟨"foo".toList, "1".toList, "22".toList⟩]⟩ = false := by
+  unfold DistinctIds; decide
+
+/-- the weaker hypothesis is satisfied where the old one is not: `foo` ships an SBOM (about `libz`) -/
+example : NoTarget benignFS benignOpts ∧ DistinctIds benignOpts ∧ noEmbeddedB benignFS benignOpts = false := by
+  refine ⟨noTarget_iff.mpr (by decide), by unfold DistinctIds; decide, by decide⟩
+
+/-- **image_layer_clauses_partial** — the clauses `image-digest` and `layer-digest` of the oracle hold of the
+model's document for embedded SBOMs of arbitrary shape and for EVERY function `ord` (not even `OrdOk` is
+needed), provided header elements are told apart by their identifiers and nothing else claims the image/layer names or
+identifiers.  Stronger than `image_layers_by_digest_embedded`: the image *element itself* (name, SHA256) and
+every layer element survive, also without an image digest. -/
+theorem image_layer_clauses_partial {o : Opts} {fs : SbomDir} {ord : List Id → List Id} {d : Doc}
+    (hh : HdrInj o) (hu : unclaimed o fs = true) (h : generate o fs ord = .ok d) :
+    imageOk o d = true ∧ layersOk o d = true :=
+  ⟨(imageOk_iff o d).mpr (generate_unclaimed hh hu h).1, (layersOk_iff o d).mpr (generate_unclaimed hh hu h).2⟩
+
+/-! ## what still holds on the inputs of class F11c -/
+
+/-- **describes_but_apks_partial** — with embedded SBOMs that replace apko's elements (F11c) but have at most
+one target each (¬F11d), six of the seven clauses of the specification hold: everything except "the element
+of an installed apk carries the database's version and checksum" -/
+theorem describes_but_apks_partial {o : Opts} {fs : SbomDir} {ord : List Id → List Id} {d : Doc}
+    (hord : OrdOk ord) (hh : headerOk o = true) (hu : unclaimed o fs = true) (hone : multiTarget o fs = false)
+    (h : generate o fs ord = .ok d) :
+    GoodIds fs d ∧ d.ids.Nodup ∧ Closed d ∧ ImageOk o d ∧ LayersOk o d ∧ NoStray o fs d := by
+  obtain ⟨c1, c2, c3⟩ := generate_common h
+  obtain ⟨u1, u2⟩ := generate_unclaimed (headerOk_iff.mp hh).1 hu h
+  exact ⟨c1, c2, generate_closed hord hone h, u1, u2, c3⟩
+
+/-- **apk_named_element_partial** — … and of the seventh clause this much remains: every installed apk has an
+element *named* after it (apko's own, or the one its embedded SBOM describes), provided that among all
+candidate elements (header, apko-generated, embedded) the same identifier never comes with two names
+(`nameById`, decidable).  F11c costs the version and the checksum, never the presence of the package. -/
+theorem apk_named_element_partial {o : Opts} {fs : SbomDir} {ord : List Id → List Id} {d : Doc}
+    (hord : OrdOk ord) (hone : multiTarget o fs = false) (hj : nameById o fs = true)
+    (h : generate o fs ord = .ok d) : ∀ a ∈ o.apks, ∃ p ∈ d.packages, p.name = a.name :=
+  generate_named hord hone hj h
+
+/-- satisfiable on the F11c witness and on the example with a replaced element and a relationship graph -/
+example : (multiTarget f11cOpts f11cFS = false ∧ nameById f11cOpts f11cFS = true ∧ embeddedTarget f11cOpts f11cFS = true) ∧
+    (multiTarget exOpts exFS = false ∧ nameById exOpts exFS = true ∧ embeddedTarget exOpts exFS = true) := by
+  decide
+
+/-- `nameById` is needed: on the F11a witness one identifier comes with the names `a+` and `aC43`, and no
+element is named `aC43` -/
+theorem nameById_needed :
+    multiTarget f11aOpts [] = false ∧ nameById f11aOpts [] = false ∧
+    okAnd (generate f11aOpts [] id) (fun d => !d.packages.any (fun p => p.name = "aC43".toList)) = true := by
+  decide
+
+/-! ## which errors `Generate` can report -/
+
+/-- for all inputs: no layers (a panic in Go), a directory at an SBOM path, an embedded SBOM whose relationships
+mention an element it does not contain, conflicting licensing infos — nothing else -/
+theorem generate_errors {o : Opts} {fs : SbomDir} {ord : List Id → List Id} {e : Err}
+    (h : generate o fs ord = .error e) :
+    e = .noLayers ∨ e = .sbomIsDir ∨ e = .missing ∨ e = .licConflict := by
+  have hf : e ≠ .fuel := fun he => generate_never_fuel o fs ord (he ▸ h)
+  unfold generate at h
+  split at h
+  · cases h; exact Or.inl rfl
+  · split at h
+    · next e' ha =>
+      cases h
+      rcases addApks_error _ ha with h | h | h | h
+      · exact Or.inr (Or.inl h)
+      · exact absurd h hf
+      · exact Or.inr (Or.inr (Or.inl h))
+      · exact Or.inr (Or.inr (Or.inr h))
+    · cases h
+
+/-- on a benign input nothing is imported, so "unable to find elements" cannot happen either -/
+theorem benign_errors {o : Opts} {fs : SbomDir} {ord : List Id → List Id} {e : Err}
+    (hb : Benign o fs) (h : generate o fs ord = .error e) :
+    e = .noLayers ∨ e = .sbomIsDir ∨ e = .licConflict :=
+  generate_noTarget_err (embeddedTarget_false.mp (benign_iff.mp hb).2.2.1) h
+
+/-! ## the orders the driver tries -/
+
+/-- every iteration order the `s.gen` handler tries (`ordOf c` for `c ∈ choices (multiLists o fs)`) is a
+rearrangement of the key set it is applied to -/
+theorem driver_orders_perm (o : Opts) (fs : SbomDir) :
+    ∀ c ∈ Driver.Sbom.choices (Driver.Sbom.multiLists o fs), OrdPerm (Driver.Sbom.ordOf c) :=
+  Sbom.driver_orders_perm o fs
+
+/-- so every candidate document the handler computes gets a listed class (or none) -/
+theorem driver_candidates_listed {o : Opts} {fs : SbomDir} (hh : headerOk o = true) (hu : unclaimed o fs = true) :
+    ∀ c ∈ Driver.Sbom.choices (Driver.Sbom.multiLists o fs), ∀ d,
+      generate o fs (Driver.Sbom.ordOf c) = .ok d → Driver.Sbom.classOf o fs (oracle o fs d) ≠ "unlisted" :=
+  fun c hc _ h => driver_invalid_listed (Sbom.driver_orders_perm o fs c hc).ordOk hh hu h
+
+/-- without an embedded SBOM with two target elements (¬F11d) the handler has exactly one candidate, computed
+with the identity order — by `order_independent_partial` it is the model's answer for every Go map order, so
+in this case the correspondence is an equality, not a membership -/
+theorem driver_single_candidate {o : Opts} {fs : SbomDir} (h : multiTarget o fs = false) :
+    (Driver.Sbom.choices (Driver.Sbom.multiLists o fs)).map (fun c => generate o fs (Driver.Sbom.ordOf c)) =
+      [generate o fs id] :=
+  Sbom.driver_single_candidate h
+
+/-! ## the index oracle on the model's index document -/
+
+/-- the identifiers of the index document, in order: index, one per image, source -/
+def indexIds (o : IndexOpts) : List Id :=
+  indexId o :: o.images.map (fun h => (archImagePackage h).id) ++
+    (if o.vcsUrl.isEmpty then [] else [sourceId o.vcsUrl])
+
+theorem index_ids {o : IndexOpts} {d : Doc} (h : generateIndex o = .ok d) : d.ids = indexIds o := by
+  unfold generateIndex at h
+  split at h
+  · cases h
+  · cases h
+    unfold indexIds
+    cases o.vcsUrl.isEmpty <;> simp [Doc.ids, addSourcePackage, indexPackage, sourcePackage, Function.comp_def]
+
+theorem index_length {o : IndexOpts} {d : Doc} (h : generateIndex o = .ok d) :
+    d.packages.length = 1 + o.images.length + (if o.vcsUrl.isEmpty then 0 else 1) := by
+  unfold generateIndex at h
+  split at h
+  · cases h
+  · cases h
+    cases o.vcsUrl.isEmpty <;> simp [addSourcePackage] <;> omega
+
+/-- on the model's index document every clause of `indexOracle` holds for all inputs except identifier
+uniqueness (GenerateIndex has no de-dup pass) -/
+theorem index_oracle_cases {o : IndexOpts} {d : Doc} (h : generateIndex o = .ok d) :
+    indexOracle o d = if idsUnique d = true then none else some "id-duplicate" := by
+  have h1 : (d.packages.all fun p => validSpdxId p.id) = true := List.all_eq_true.mpr (index_ids_valid h)
+  have h3 := index_refs_resolve h
+  obtain ⟨hd, hp, him⟩ := index_describes_index h
+  have h6 := index_length h
+  unfold indexOracle
+  rw [h1, h3, hd]
+  cases hu : idsUnique d
+  · simp
+  · simp only [Bool.not_true, Bool.false_eq_true, if_false, if_true]
+    rw [if_neg, if_neg, if_neg]
+    · simp [h6]
+    · simp only [Bool.not_eq_true', Bool.not_eq_false, List.all_eq_true, List.any_eq_true, Bool.and_eq_true,
+        decide_eq_true_eq, List.contains_eq_mem]
+      intro im hi
+      obtain ⟨a1, a2⟩ := him im hi
+      exact ⟨_, a1, ⟨by simp [archImagePackage], rfl⟩, _, a2, ⟨rfl, rfl⟩, by simp⟩
+    · simp only [Bool.not_eq_true', Bool.not_eq_false, List.any_eq_true, Bool.and_eq_true,
+        decide_eq_true_eq, List.contains_eq_mem]
+      exact ⟨_, hp, ⟨rfl, rfl⟩, by simp⟩
+
+/-- **index_oracle_passes_partial** — when index, images and source sanitise to pairwise distinct identifiers
+the driver's verdict on the model's index document is `pass` -/
+theorem index_oracle_passes_partial {o : IndexOpts} {d : Doc} (hn : (indexIds o).Nodup)
+    (h : generateIndex o = .ok d) : Driver.Sbom.verdict (indexOracle o d) = "pass" := by
+  rw [index_oracle_cases h, if_pos ((idsUnique_iff d).mpr (index_ids h ▸ hn))]
+  rfl
+
+/-- … and that is the only way it can fail -/
+theorem index_invalid_only_duplicate {o : IndexOpts} {d : Doc} (h : generateIndex o = .ok d)
+    (hfail : indexOracle o d ≠ none) : indexOracle o d = some "id-duplicate" ∧ ¬ (indexIds o).Nodup := by
+  rw [index_oracle_cases h] at hfail ⊢
+  split at hfail
+  · exact absurd rfl hfail
+  · next hu =>
+    rw [if_neg hu]
+    exact ⟨rfl, fun hn => hu ((idsUnique_iff d).mpr (index_ids h ▸ hn))⟩
+
+def exIndex : IndexOpts := ⟨⟨"sha256".toList, "aa".toList⟩, [⟨"sha256".toList, "bb".toList⟩, ⟨"sha256".toList, "cc".toList⟩],
+  "https://x/y@12".toList⟩
+
+example : (indexIds exIndex).Nodup := by unfold indexIds; decide
+
+/-- the hypothesis is needed: the same image digest twice gives two elements with one identifier -/
+theorem index_duplicate_witness :
+    (match generateIndex ⟨⟨"sha256".toList, "aa".toList⟩, [⟨"sha256".toList, "bb".toList⟩, ⟨"sha256".toList, "bb".toList⟩], []⟩ with
+     | .ok d => indexOracle ⟨⟨"sha256".toList, "aa".toList⟩, [⟨"sha256".toList, "bb".toList⟩, ⟨"sha256".toList, "bb".toList⟩], []⟩ d
+     | .error _ => none) = some "id-duplicate" := by
+  decide
 
 end Apko.C11
